@@ -162,6 +162,28 @@ theorem walk_IDAT (fuel : Nat) (data rest : List Nat) (st : Decoder) (hlen : dat
   rw [walk_step fuel _ _ _ _ _ _ _ _ data rest st hlen]
   simp [tagIHDR, tagPLTE, tagIDAT]
 
+theorem walk_PLTE (fuel : Nat) (data rest : List Nat) (st : Decoder) (hlen : data.length < 4294967296) :
+    walk (fuel + 1) (chunk "PLTE" data ++ rest) st =
+      (match processPlte st data with
+       | .ok st' => walk fuel rest st'
+       | .err e => .err e
+       | .panic => .panic) := by
+  rw [chunk_unfold]
+  have ht : tagOf "PLTE" = [80, 76, 84, 69] := by decide
+  rw [ht]
+  simp only [be32, List.cons_append, List.nil_append]
+  rw [walk_step fuel _ _ _ _ _ _ _ _ data rest st hlen]
+  simp [tagIHDR, tagPLTE]
+
+theorem walk_tRNS (fuel : Nat) (data rest : List Nat) (st : Decoder) (hlen : data.length < 4294967296) :
+    walk (fuel + 1) (chunk "tRNS" data ++ rest) st = walk fuel rest (processTrns st data) := by
+  rw [chunk_unfold]
+  have ht : tagOf "tRNS" = [116, 82, 78, 83] := by decide
+  rw [ht]
+  simp only [be32, List.cons_append, List.nil_append]
+  rw [walk_step fuel _ _ _ _ _ _ _ _ data rest st hlen]
+  simp [tagIHDR, tagPLTE, tagIDAT, tagTRNS]
+
 theorem walk_IEND (fuel : Nat) (rest : List Nat) (st : Decoder) :
     walk (fuel + 1) (chunk "IEND" [] ++ rest) st = .ok st := by
   rw [chunk_unfold]
@@ -200,12 +222,172 @@ theorem idat_chunks_length (zs : List (List Nat)) :
 
 /-- `process_ihdr` on a 13-byte IHDR with compression/filter/interlace 0 -/
 theorem processIhdr_ok (st : Decoder) (w h depth ctb : Nat) (ct : ColorType)
-    (hw : w < 4294967296) (hh : h < 4294967296) (hct : ColorType.fromByte ctb = some ct) :
+    (hw : w < 4294967296) (hh : h < 4294967296) (hct : ColorType.fromByte ctb = some ct)
+    (hda : depthAllowed ct depth = true) :
     processIhdr st (be32 w ++ be32 h ++ [depth, ctb, 0, 0, 0]) =
       .ok { st with width := w, height := h, bitDepth := depth, colorType := ct, hasIhdr := true } := by
   unfold processIhdr
   simp only [be32, List.cons_append, List.nil_append]
-  simp [hct, be32At]
+  simp [hct, be32At, hda]
   constructor <;> omega
+
+end OxiVerif.C24
+
+/-! ### packed samples: `read_sample` against the bit-level reading of PNG §7.2 -/
+namespace OxiVerif.C24
+open OxiVerif.Spec.C24Png (bitsOfByte bitsOf natOfBits samplesOfRow)
+
+/-- one byte: the shift-and-mask of `read_sample` is the MSB-first bit field (finite table:
+256 byte values × 4 depths × 8 bit offsets) -/
+theorem byte_field : ∀ b < 256, ∀ d ∈ [1, 2, 4, 8], ∀ r < 8, r % d = 0 →
+    natOfBits (((bitsOfByte b).drop r).take d) = b / 2 ^ (8 - d - r) % 2 ^ d := by
+  decide +kernel
+
+theorem byte_bits : ∀ b < 256, natOfBits (bitsOfByte b) = b := by decide +kernel
+
+theorem bitsOfByte_length (b : Nat) : (bitsOfByte b).length = 8 := rfl
+
+theorem bitsOf_cons (b : Nat) (bs : List Nat) : bitsOf (b :: bs) = bitsOfByte b ++ bitsOf bs := by
+  simp [bitsOf]
+
+theorem bitsOf_length (bs : List Nat) : (bitsOf bs).length = 8 * bs.length := by
+  induction bs with
+  | nil => rfl
+  | cons b bs ih => rw [bitsOf_cons, List.length_append, ih, bitsOfByte_length, List.length_cons]; omega
+
+/-- dropping whole bytes -/
+theorem bitsOf_drop (q : Nat) : ∀ bs : List Nat, (bitsOf bs).drop (8 * q) = bitsOf (bs.drop q) := by
+  induction q with
+  | zero => intro bs; simp
+  | succ q ih =>
+    intro bs
+    cases bs with
+    | nil => simp [bitsOf]
+    | cons b bs =>
+      rw [bitsOf_cons, show 8 * (q + 1) = 8 + 8 * q by omega, ← List.drop_drop,
+        List.drop_append_of_le_length (by simp [bitsOfByte_length])]
+      have h8 : (bitsOfByte b).drop 8 = [] := List.drop_of_length_le (by simp [bitsOfByte_length])
+      rw [h8, List.nil_append, ih, List.drop_succ_cons]
+
+theorem natOfBits_foldl (bs : List Bool) (n : Nat) :
+    bs.foldl (fun n b => 2 * n + (if b then 1 else 0)) n = n * 2 ^ bs.length + natOfBits bs := by
+  induction bs generalizing n with
+  | nil => simp [natOfBits]
+  | cons b bs ih =>
+    simp only [List.foldl_cons, natOfBits, List.length_cons]
+    rw [ih, ih (2 * 0 + _)]
+    rw [Nat.pow_succ]
+    simp only [Nat.mul_zero, Nat.zero_add, Nat.add_mul, Nat.add_assoc]
+    congr 1
+    rw [Nat.mul_comm 2 n, Nat.mul_assoc, Nat.mul_comm 2]
+
+theorem natOfBits_append (xs ys : List Bool) :
+    natOfBits (xs ++ ys) = natOfBits xs * 2 ^ ys.length + natOfBits ys := by
+  unfold natOfBits
+  rw [List.foldl_append, natOfBits_foldl]
+  rfl
+
+/-- `read_sample` computes the MSB-first bit field the PNG specification describes (§7.2) -/
+theorem readSample_spec (row : List Nat) (i d : Nat) (hd : d ∈ [1, 2, 4, 8, 16])
+    (hb : ∀ x ∈ row, x < 256) (hi : (i + 1) * d ≤ 8 * row.length) :
+    readSample row i d = natOfBits (((bitsOf row).drop (i * d)).take d) := by
+  unfold readSample
+  by_cases h16 : d = 16
+  · subst h16
+    simp only [if_true]
+    have hlen : 2 * i + 1 < row.length := by omega
+    rw [show i * 16 = 8 * (2 * i) by omega, bitsOf_drop]
+    obtain ⟨b0, b1, rest, hrow⟩ : ∃ b0 b1 rest, row.drop (2 * i) = b0 :: b1 :: rest := by
+      match h : row.drop (2 * i) with
+      | [] => have := congrArg List.length h; simp at this; omega
+      | [_] => have := congrArg List.length h; simp at this; omega
+      | b0 :: b1 :: rest => exact ⟨b0, b1, rest, rfl⟩
+    have h0 : row.getD (2 * i) 0 = b0 := by
+      have := congrArg (fun l => l.getD 0 0) hrow
+      simpa [List.getD_eq_getElem?_getD] using this
+    have h1 : row.getD (2 * i + 1) 0 = b1 := by
+      have := congrArg (fun l => l.getD 1 0) hrow
+      simpa [List.getD_eq_getElem?_getD] using this
+    have hm0 : b0 ∈ row := by
+      have : b0 ∈ row.drop (2 * i) := by rw [hrow]; simp
+      exact List.mem_of_mem_drop this
+    have hm1 : b1 ∈ row := by
+      have : b1 ∈ row.drop (2 * i) := by rw [hrow]; simp
+      exact List.mem_of_mem_drop this
+    rw [hrow, bitsOf_cons, bitsOf_cons, ← List.append_assoc,
+      List.take_append_of_le_length (by simp [bitsOfByte_length]),
+      List.take_of_length_le (by simp [bitsOfByte_length]), natOfBits_append,
+      byte_bits b0 (hb b0 hm0), byte_bits b1 (hb b1 hm1), h0, h1, bitsOfByte_length]
+  · simp only [h16, if_false]
+    have hd' : d ∈ [1, 2, 4, 8] := by simp at hd ⊢; omega
+    have hdiv : (i * d) % 8 % d = 0 ∧ (i * d) % 8 + d ≤ 8 := by
+      simp at hd'
+      rcases hd' with rfl | rfl | rfl | rfl <;> omega
+    have hq : i * d / 8 < row.length := by
+      simp at hd'
+      rcases hd' with rfl | rfl | rfl | rfl <;> omega
+    obtain ⟨b, rest, hrow⟩ : ∃ b rest, row.drop (i * d / 8) = b :: rest := by
+      match h : row.drop (i * d / 8) with
+      | [] => have := congrArg List.length h; simp at this; omega
+      | b :: rest => exact ⟨b, rest, rfl⟩
+    have h0 : row.getD (i * d / 8) 0 = b := by
+      have := congrArg (fun l => l.getD 0 0) hrow
+      simpa [List.getD_eq_getElem?_getD] using this
+    have hm : b ∈ row := by
+      have : b ∈ row.drop (i * d / 8) := by rw [hrow]; simp
+      exact List.mem_of_mem_drop this
+    have hsplit : i * d = 8 * (i * d / 8) + i * d % 8 := by omega
+    conv => rhs; rw [hsplit, ← List.drop_drop, bitsOf_drop, hrow, bitsOf_cons]
+    rw [List.drop_append_of_le_length (by rw [bitsOfByte_length]; omega),
+      List.take_append_of_le_length (by simp [bitsOfByte_length]; omega),
+      byte_field b (hb b hm) d hd' (i * d % 8) (by omega) hdiv.1, h0]
+
+
+/-- `chunks_exact` on a concatenation of complete rows -/
+theorem chunksExact_flatten (n : Nat) (hn : 0 < n) :
+    ∀ (rows : List (List Nat)) (fuel : Nat), (∀ r ∈ rows, r.length = n) → rows.length ≤ fuel →
+      chunksExact n fuel rows.flatten = rows := by
+  intro rows
+  induction rows with
+  | nil =>
+    intro fuel _ _
+    cases fuel with
+    | zero => simp [chunksExact]
+    | succ f => simp [chunksExact]
+  | cons r rs ih =>
+    intro fuel hr hf
+    cases fuel with
+    | zero => simp at hf
+    | succ f =>
+      have hrl : r.length = n := hr r (by simp)
+      have hrs : ∀ q ∈ rs, q.length = n := fun q hq => hr q (by simp [hq])
+      have hne : ¬ ((r :: rs).flatten.length < n ∨ (r :: rs).flatten.isEmpty = true) := by
+        have : r ≠ [] := by intro h; rw [h] at hrl; simp at hrl; omega
+        simp [List.flatten_cons, hrl, this]
+      simp only [chunksExact, hne, if_false]
+      have ht : (r :: rs).flatten.take n = r := by
+        simp [List.flatten_cons, hrl]
+      have hd : (r :: rs).flatten.drop n = rs.flatten := by
+        simp [List.flatten_cons, hrl]
+      rw [ht, hd, ih f hrs (by simpa using hf)]
+
+/-- the samples the decoder reads from the unfiltered scanlines are the samples of PNG §7.2 -/
+theorem rowSamples_spec (d perRow n : Nat) (rows : List (List Nat)) (hd : d ∈ [1, 2, 4, 8, 16])
+    (hn : 0 < n) (hr : ∀ r ∈ rows, r.length = n ∧ ∀ x ∈ r, x < 256) (hfit : perRow * d ≤ 8 * n) :
+    rowSamples d perRow n rows.flatten = rows.map (samplesOfRow d perRow) := by
+  unfold rowSamples
+  rw [chunksExact_flatten n hn rows _ (fun r h => (hr r h).1)
+    (by rw [flatten_length_const n rows (fun r h => (hr r h).1)]
+        exact Nat.le_mul_of_pos_right _ hn)]
+  apply List.map_congr_left
+  intro row hrow
+  unfold samplesOfRow
+  apply List.map_congr_left
+  intro i hi
+  have hi' : i < perRow := List.mem_range.1 hi
+  apply readSample_spec row i d hd (hr row hrow).2
+  rw [(hr row hrow).1]
+  calc (i + 1) * d ≤ perRow * d := Nat.mul_le_mul_right _ hi'
+    _ ≤ 8 * n := hfit
 
 end OxiVerif.C24
